@@ -1,4 +1,5 @@
-import ZkElGamal.Props.C05
+import ZkElGamal.Proofs.SigmaC03
+import ZkElGamal.Proofs.SigmaC02b
 import ZkElGamal.Model.Range
 /-!
 # C20 — provers refuse witnesses that do not match the statement
